@@ -798,6 +798,67 @@ def thunk_cycle(D):
     return None
 
 
+def _base(ty):
+    while ty[0] != "named":
+        ty = ty[1]
+    return ty[1]
+
+
+def _has_obj(lit):
+    if lit is None:
+        return False
+    if lit["k"] == "obj":
+        return True
+    if lit["k"] == "list":
+        return any(_has_obj(v) for v in lit["vs"])
+    return False
+
+
+def input_reach(D):
+    """name -> input types reachable through the fields of the input type (the type itself included)"""
+    edges = {}
+    for t in D["types"]:
+        if t["kind"] == "input":
+            out = set()
+            for f in t["fields"]:
+                td = gs.desc_type(D, _base(f["type"]))
+                if td is not None and td["kind"] == "input":
+                    out.add(td["name"])
+            edges[t["name"]] = out
+    reach = {}
+    for start in edges:
+        seen, todo = {start}, list(edges[start])
+        while todo:
+            x = todo.pop()
+            if x not in seen:
+                seen.add(x)
+                todo += list(edges.get(x, ()))
+        reach[start] = seen
+    return reach
+
+
+def in_progress_defaults(D):
+    """(type, field) of input-object fields whose default holds an object literal of an input type from which the
+    field's OWN type can be reached again: since fix C14-T15 every default is evaluated again when the schema is
+    extended, the fields of an input type are extended while the type is "in progress", and coercing an object
+    literal resolves the (lazily extended) types of the fields it meets — such a default keeps its value over the
+    un-extended types or is refused, and what other defaults see of it depends on the order in which the types are
+    extended. Part of finding S8; kept out of generated content (corpus: S8-extension-default-*), the model covers
+    the order-independent cases."""
+    reach = input_reach(D)
+    out = []
+    for t in D["types"]:
+        if t["kind"] != "input":
+            continue
+        for f in t["fields"]:
+            if f.get("default") is None or not _has_obj(_lit(f["default"])):
+                continue
+            u = gs.desc_type(D, _base(f["type"]))
+            if u is not None and u["kind"] == "input" and t["name"] in reach.get(u["name"], ()):
+                out.append((t, f))
+    return out
+
+
 def sanitize(D):
     """Drop default literals that are not valid constants of their type over D (e.g. cyclic default
     dependencies between mutually recursive input types) until every remaining default coerces."""
@@ -828,6 +889,9 @@ def sanitize(D):
                     thunk_needs(_lit(f["default"]), f["type"], D, acc)
                 if acc:
                     f["default"] = None
+            changed = True
+        for _t, f in in_progress_defaults(D):
+            f["default"] = None
             changed = True
     return D
 
